@@ -1021,13 +1021,15 @@ fn c20_conditional() {
                 _ => bad.push(format!("{tag}: dummy_proof with chosen public inputs failed")),
             }
         } else if !with_lookup { bad.push(format!("{tag}: dummy_circuit panicked")); }
-        // one outer circuit, condition as a witness bit
+        // outer circuits: the condition as a witness bit, and as a build-time constant (true / false)
+        for cmode in [None, Some(true), Some(false)] {
+        let mtag = match cmode { None => "witness condition", Some(true) => "constant condition true", Some(false) => "constant condition false" };
         let mut builder = CircuitBuilder::<F, D>::new(CircuitConfig::standard_recursion_config());
         let pt0 = builder.add_virtual_proof_with_pis(&data.common);
         let pt1 = builder.add_virtual_proof_with_pis(&data.common);
         let vd0 = builder.add_virtual_verifier_data(data.common.config.fri_config.cap_height);
         let vd1 = builder.add_virtual_verifier_data(data.common.config.fri_config.cap_height);
-        let b = builder.add_virtual_bool_target_safe();
+        let b = match cmode { None => builder.add_virtual_bool_target_safe(), Some(c) => builder.constant_bool(c) };
         builder.conditionally_verify_proof::<PC>(b, &pt0, &vd0, &pt1, &vd1, &data.common);
         let outer = builder.build::<PC>();
         let mut tampered = p1.clone();
@@ -1058,10 +1060,12 @@ fn c20_conditional() {
             scen.push(("selected dummy proof against the real verifier data, condition false", false, &p0, good, dproof, good, false));
         }
         for (name, cond, pa, va, pb, vb, expect) in scen {
+            if cmode.is_some() && cmode != Some(cond) { continue; }
+            let name = format!("{mtag}: {name}");
             cases += 1;
             let r = catch_unwind(AssertUnwindSafe(|| -> anyhow::Result<()> {
                 let mut pw = PartialWitness::new();
-                pw.set_bool_target(b, cond)?;
+                if cmode.is_none() { pw.set_bool_target(b, cond)?; }
                 pw.set_proof_with_pis_target(&pt0, pa)?;
                 pw.set_proof_with_pis_target(&pt1, pb)?;
                 pw.set_verifier_data_target(&vd0, va)?;
@@ -1078,8 +1082,53 @@ fn c20_conditional() {
             if expect && !native_ok { bad.push(format!("{tag}: {name}: harness expectation wrong: the native verifier rejects the selected proof")); continue; }
             if accepted != native_ok { bad.push(format!("{tag}: {name}: outer circuit {} but the native verifier {} the selected proof under the selected verifier data", if accepted { "ACCEPTED" } else { "not provable/accepted" }, if native_ok { "accepts" } else { "rejects" })); }
         }
+        }
     }
     finish("c20_conditional", cases, bad);
+}
+
+// C20: "dummy proofs generated for a circuit shape are always valid for their dummy circuit" - including the base proofs of cyclic recursion, which
+// carry verifier data and caller-chosen values in their public inputs
+#[test]
+fn c20_cyclic_base_proof() {
+    use crate::gates::noop::NoopGate;
+    use crate::recursion::dummy_circuit::{cyclic_base_proof, dummy_circuit};
+    let mut bad = Vec::new();
+    let mut cases = 0usize;
+    for (cap_height, extra, gates) in [(4usize, 3usize, 40usize), (1, 0, 5), (0, 9, 300), (2, 1, 100)] {
+        let mut config = CircuitConfig::standard_recursion_config();
+        config.fri_config.cap_height = cap_height;
+        let vd_len = 4 + 4 * (1usize << cap_height);
+        let mut builder = CircuitBuilder::<F, D>::new(config);
+        let mut pw = PartialWitness::new();
+        for i in 0..extra + vd_len { let t = builder.add_virtual_public_input(); pw.set_target(t, F::from_canonical_usize(i)).unwrap(); }
+        for _ in 0..gates { builder.add_gate(NoopGate, vec![]); }
+        let data = builder.build::<PC>();
+        let tag = format!("shape with cap height {cap_height}, {} public inputs, {} rows", data.common.num_public_inputs, data.common.degree());
+        let vk = &data.verifier_only;
+        for nz in [vec![], vec![(0usize, F::from_canonical_u64(7))], (0..extra).map(|i| (i, F::NEG_ONE - F::from_canonical_usize(i))).collect::<Vec<_>>()] {
+            if nz.iter().any(|&(i, _)| i >= extra) { continue; }
+            cases += 1;
+            let nzm: hashbrown::HashMap<usize, F> = nz.iter().copied().collect();
+            let proof = match catch_unwind(AssertUnwindSafe(|| cyclic_base_proof::<F, PC, D>(&data.common, vk, nzm))) { Ok(p) => p, Err(_) => { bad.push(format!("{tag}: cyclic_base_proof panicked")); continue; } };
+            // public inputs: chosen values, zeros, then the verifier data
+            let mut want = vec![F::ZERO; extra];
+            for &(i, v) in &nz { want[i] = v; }
+            want.extend(vk.circuit_digest.elements);
+            for h in &vk.constants_sigmas_cap.0 { want.extend(h.elements); }
+            if proof.public_inputs != want { bad.push(format!("{tag}: base proof does not carry the requested public inputs / verifier data")); }
+            match catch_unwind(AssertUnwindSafe(|| dummy_circuit::<F, PC, D>(&data.common).verify(proof.clone()))) {
+                Ok(Ok(())) => {}
+                Ok(Err(e)) => bad.push(format!("{tag}, {} chosen inputs: cyclic base proof is NOT valid for its dummy circuit: {e}", nz.len())),
+                Err(_) => bad.push(format!("{tag}: verification of the base proof PANICKED")),
+            }
+            // and it is a proof about exactly these public inputs
+            cases += 1;
+            let mut p2 = proof.clone(); let k = p2.public_inputs.len() - 1; p2.public_inputs[k] += F::ONE;
+            if let Ok(Ok(())) = catch_unwind(AssertUnwindSafe(|| dummy_circuit::<F, PC, D>(&data.common).verify(p2))) { bad.push(format!("{tag}: base proof with an altered embedded verifier-data element is still valid for the dummy circuit")); }
+        }
+    }
+    finish("c20_cyclic_base_proof", cases, bad);
 }
 
 #[test]
@@ -1232,6 +1281,86 @@ fn t20_cyclic_chain() {
     // a tampered inner proof is not accepted when selected
     if let Some(p) = chain.first() { let mut t = p.clone(); t.public_inputs[8] += F::ONE; cases += 1; if step(true, &t, &real_vk).is_ok() { bad.push("chain step over an inner proof with altered counter accepted".into()); } }
     finish("t20_cyclic_chain", cases, bad);
+}
+
+// thorough tier: a cyclic circuit that folds TWO previous proofs of itself per step (tree aggregation).  Every slot must enforce that the inner
+// proof carries the circuit's own verifier data.
+#[test]
+fn t20_cyclic_two_slots() {
+    use crate::gates::noop::NoopGate;
+    use crate::recursion::cyclic_recursion::check_cyclic_proof_verifier_data;
+    use crate::recursion::dummy_circuit::{cyclic_base_proof, dummy_circuit};
+    let mut bad = Vec::new();
+    let mut cases = 0usize;
+    let common_for_recursion = || {
+        let builder = CircuitBuilder::<F, D>::new(CircuitConfig::standard_recursion_config());
+        let data = builder.build::<PC>();
+        let mut builder = CircuitBuilder::<F, D>::new(CircuitConfig::standard_recursion_config());
+        let proof = builder.add_virtual_proof_with_pis(&data.common);
+        let vd = builder.add_virtual_verifier_data(data.common.config.fri_config.cap_height);
+        builder.verify_proof::<PC>(&proof, &vd, &data.common);
+        let data = builder.build::<PC>();
+        let mut builder = CircuitBuilder::<F, D>::new(CircuitConfig::standard_recursion_config());
+        let proof = builder.add_virtual_proof_with_pis(&data.common);
+        let vd = builder.add_virtual_verifier_data(data.common.config.fri_config.cap_height);
+        builder.verify_proof::<PC>(&proof, &vd, &data.common);
+        while builder.num_gates() < 1 << 13 { builder.add_gate(NoopGate, vec![]); }
+        builder.build::<PC>().common
+    };
+    let mut builder = CircuitBuilder::<F, D>::new(CircuitConfig::standard_recursion_config());
+    let count = builder.add_virtual_public_input();   // number of nodes below and including this one
+    let mut common = common_for_recursion();
+    let vd_target = builder.add_verifier_data_public_inputs();
+    common.num_public_inputs = builder.num_public_inputs();
+    let cond = [builder.add_virtual_bool_target_safe(), builder.add_virtual_bool_target_safe()];
+    let slot = [builder.add_virtual_proof_with_pis(&common), builder.add_virtual_proof_with_pis(&common)];
+    let one = builder.one();
+    let c0 = builder.mul_add(cond[0].target, slot[0].public_inputs[0], one);
+    let c1 = builder.mul_add(cond[1].target, slot[1].public_inputs[0], c0);
+    builder.connect(count, c1);
+    for i in 0..2 { builder.conditionally_verify_cyclic_proof_or_dummy::<PC>(cond[i], &slot[i], &common).unwrap(); }
+    let cyc = match catch_unwind(AssertUnwindSafe(|| builder.build::<PC>())) { Ok(d) => d, Err(_) => { finish("t20_cyclic_two_slots", 1, vec!["a cyclic circuit with two self-verification slots cannot be built".into()]); return; } };
+    let real_vk = cyc.verifier_only.clone();
+    type VK = crate::plonk::circuit_data::VerifierOnlyCircuitData<PC, D>;
+    let step = |own: &VK, inner: [(bool, &ProofWithPublicInputs<F, PC, D>); 2]| -> Result<ProofWithPublicInputs<F, PC, D>, String> {
+        match catch_unwind(AssertUnwindSafe(|| -> anyhow::Result<ProofWithPublicInputs<F, PC, D>> {
+            let mut pw = PartialWitness::new();
+            for i in 0..2 { pw.set_bool_target(cond[i], inner[i].0)?; pw.set_proof_with_pis_target::<PC, D>(&slot[i], inner[i].1)?; }
+            pw.set_verifier_data_target(&vd_target, own)?;
+            let p = cyc.prove(pw)?;
+            cyc.verify(p.clone())?;
+            Ok(p)
+        })) { Ok(Ok(p)) => Ok(p), Ok(Err(e)) => Err(format!("{e}")), Err(_) => Err("panicked".into()) }
+    };
+    let base = cyclic_base_proof(&common, &real_vk, hashbrown::HashMap::new());
+    cases += 1;
+    let leaf = match step(&real_vk, [(false, &base), (false, &base)]) { Ok(p) => p, Err(e) => { bad.push(format!("honest leaf not provable/accepted: {e}")); finish("t20_cyclic_two_slots", cases, bad); return; } };
+    if check_cyclic_proof_verifier_data(&leaf, &real_vk, &cyc.common).is_err() { bad.push("honest leaf fails the verifier-data check".into()); }
+    if leaf.public_inputs[0] != F::ONE { bad.push("honest leaf: wrong count".into()); }
+    // honest nodes: both slots, only the first, only the second
+    for (ca, cb, want) in [(true, true, 3u64), (true, false, 2), (false, true, 2)] {
+        cases += 1;
+        match step(&real_vk, [(ca, &leaf), (cb, &leaf)]) {
+            Ok(p) => { if check_cyclic_proof_verifier_data(&p, &real_vk, &cyc.common).is_err() || p.public_inputs[0] != F::from_canonical_u64(want) { bad.push(format!("honest node (slots used: {ca}, {cb}): wrong count or verifier data")); } }
+            Err(e) => bad.push(format!("honest node (slots used: {ca}, {cb}) not provable/accepted: {e}")),
+        }
+    }
+    // a valid proof of this very circuit that embeds FOREIGN verifier data (those of the dummy circuit; and the real ones with one element changed)
+    let dummy_vk = dummy_circuit::<F, PC, D>(&common).verifier_only.clone();
+    let mut near_vk = real_vk.clone(); let last = near_vk.constants_sigmas_cap.0.len() - 1; near_vk.constants_sigmas_cap.0[last].elements[3] += F::ONE;
+    for (what, foreign) in [("the dummy circuit's verifier data", &dummy_vk), ("verifier data differing in the last cap element", &near_vk)] {
+        let fbase = cyclic_base_proof(&common, foreign, hashbrown::HashMap::new());
+        let rogue = match step(foreign, [(false, &fbase), (false, &fbase)]) { Ok(p) => p, Err(_) => continue };
+        cases += 1;
+        if check_cyclic_proof_verifier_data(&rogue, &real_vk, &cyc.common).is_ok() { bad.push(format!("proof embedding {what} passes the verifier-data check")); }
+        for (name, inner) in [("slot 0", [(true, &rogue), (false, &base)]), ("slot 1", [(false, &base), (true, &rogue)]), ("slot 1 next to an honest proof in slot 0", [(true, &leaf), (true, &rogue)]), ("slot 0 next to an honest proof in slot 1", [(true, &rogue), (true, &leaf)])] {
+            cases += 1;
+            if let Ok(p) = step(&real_vk, inner) { if check_cyclic_proof_verifier_data(&p, &real_vk, &cyc.common).is_ok() { bad.push(format!("inner proof embedding {what} ACCEPTED in {name}; the outer proof passes the verifier-data check")); } }
+        }
+        // (an unselected slot is NOT exempt: the embedded verifier data of every slot are tied to the circuit's own unconditionally, which is why base
+        // proofs carry them; nothing is claimed about that case here)
+    }
+    finish("t20_cyclic_two_slots", cases, bad);
 }
 
 // ---- C02 / C08: adversarial witnesses ----
@@ -1734,6 +1863,17 @@ fn c13_linear_layers() {
                 if q == 0 || q > u64::MAX as u128 { continue; }
                 st[last] = F::from_noncanonical_u64(q as u64);
                 sts.push(st);
+                // ... and with s0 chosen so that the complete 160-bit sum is K * 2^128 + delta with a TINY delta (0 <= delta < 100): the low 128 bits of the
+                // accumulator are then smaller than anything derived from the high word, the corner where folding the high word into the low one can underflow
+                if last == 11 {
+                    let gap = 0u128.wrapping_sub(acc.wrapping_add(q.wrapping_mul(t)));   // 2^128 - (low 128 bits after the 11 w_hat terms), in [1, t]
+                    for extra in 0..4u128 {
+                        let s0 = gap.div_ceil(m00) + extra;
+                        if s0 > u64::MAX as u128 { continue; }
+                        let mut st2 = st; st2[0] = F::from_noncanonical_u64(s0 as u64);
+                        sts.push(st2);
+                    }
+                }
             }
         }
         for st in &sts {
@@ -2148,6 +2288,30 @@ fn c13_hash_variants() {
         { let mut w = v.clone(); w.push(F::ZERO); cases += 1; if KeccakHash::<25>::hash_no_pad(&w) == h { bad.push(format!("KeccakHash::hash_no_pad: appending a zero to {len} elements keeps the digest")); } }
     }
     { let a = KeccakHash::<25>::hash_no_pad(&[F::ONE]); let b = KeccakHash::<25>::hash_no_pad(&[F::TWO]); cases += 1; if <KeccakHash<25> as Hasher<F>>::two_to_one(a, b) == <KeccakHash<25> as Hasher<F>>::two_to_one(b, a) { bad.push("Keccak two_to_one is symmetric".into()); } }
+    // Keccak sponge and hashing see the field ELEMENT, not its u64 representation: x and x + p (x < 2^32 - 1) are the same element
+    {
+        use crate::hash::keccak::KeccakPermutation;
+        use crate::iop::challenger::Challenger;
+        const ORDER: u64 = 0xFFFF_FFFF_0000_0001;
+        for t in 0..24u64 {
+            let canon: Vec<F> = (0..12u64).map(|i| F::from_canonical_u64((t * 977 + i * 31) % 0xFFFF_FFFE)).collect();
+            let alias: Vec<F> = canon.iter().enumerate().map(|(i, x)| if (i as u64 + t) % 3 != 1 { F::from_noncanonical_u64(x.0 + ORDER) } else { *x }).collect();
+            cases += 1;
+            let mut p1 = KeccakPermutation::<F>::new(canon.iter().copied()); p1.permute();
+            let mut p2 = KeccakPermutation::<F>::new(alias.iter().copied()); p2.permute();
+            if p1.squeeze().iter().zip(p2.squeeze()).any(|(a, b)| a.to_canonical_u64() != b.to_canonical_u64()) { bad.push(format!("KeccakPermutation depends on the representation of its state (case {t})")); }
+            cases += 1;
+            if KeccakHash::<25>::hash_no_pad(&canon) != KeccakHash::<25>::hash_no_pad(&alias) { bad.push(format!("KeccakHash::hash_no_pad depends on the representation of its input (case {t})")); }
+            cases += 1;
+            let mut c1 = Challenger::<F, KeccakHash<25>>::new(); c1.observe_elements(&canon[..(t as usize % 12) + 1]);
+            let mut c2 = Challenger::<F, KeccakHash<25>>::new(); c2.observe_elements(&alias[..(t as usize % 12) + 1]);
+            if c1.get_n_challenges(5).iter().zip(c2.get_n_challenges(5)).any(|(a, b)| a.to_canonical_u64() != b.to_canonical_u64()) { bad.push(format!("Keccak challenger depends on the representation of observed elements (case {t})")); }
+            cases += 1;
+            let mut c1 = Challenger::<F, PoseidonHash>::new(); c1.observe_elements(&canon[..(t as usize % 12) + 1]);
+            let mut c2 = Challenger::<F, PoseidonHash>::new(); c2.observe_elements(&alias[..(t as usize % 12) + 1]);
+            if c1.get_n_challenges(5).iter().zip(c2.get_n_challenges(5)).any(|(a, b)| a.to_canonical_u64() != b.to_canonical_u64()) { bad.push(format!("Poseidon challenger depends on the representation of observed elements (case {t})")); }
+        }
+    }
     // in-circuit hashing == native hashing (witness generation only)
     for len in [0usize, 1, 4, 5, 8, 9, 16, 17, 23] {
         cases += 1;
